@@ -1,6 +1,13 @@
 package checks
 
 import (
+	"fmt"
+	"os"
+	"path/filepath"
+	"strings"
+
+	"github.com/gopatchy/bkl"
+
 	"bklverif/fsx"
 	"bklverif/indep"
 	"bklverif/tv"
@@ -69,6 +76,17 @@ var formatCorpus = []struct{ ext, text string }{
 
 // corpusLayouts turns the corpus into single-layer layouts whose documents are
 // the independent reading of the text.
+// longLineTexts: a line longer than 64 KiB (a certificate, a base64 blob) in every
+// format, with more content after it.
+func longLineTexts() []struct{ ext, text string } {
+	blob := strings.Repeat("x", 70000)
+	return []struct{ ext, text string }{
+		{"toml", "port = 8080\nblob = \"" + blob + "\"\nextra = true\n[tags]\nenv = \"prod\"\n---\nsecond = 2\n"},
+		{"yaml", "port: 8080\nblob: \"" + blob + "\"\nextra: true\ntags:\n  env: prod\n---\nsecond: 2\n"},
+		{"json", "{\"port\": 8080, \"blob\": \"" + blob + "\", \"extra\": true, \"tags\": {\"env\": \"prod\"}}\n{\"second\": 2}\n"},
+	}
+}
+
 func corpusLayouts() (ls []*layout, skipped int) {
 	for _, c := range formatCorpus {
 		docs, ok, _, err := indep.Decode(c.ext, c.text)
@@ -123,4 +141,36 @@ func representable(docs []any) bool {
 	}
 	_ = tv.Canon
 	return true
+}
+
+// longLineCheck: the three long-line texts are compared outside TLC (its string
+// operators work character by character; a 70 000-character payload does not
+// finish): the documents the real Parser holds after MergeFile must be the
+// documents the independent decoder reads - the same law as for the corpus.
+func longLineCheck(r *Run) int {
+	n := 0
+	for _, c := range longLineTexts() {
+		want, ok, _, err := indep.Decode(c.ext, c.text)
+		if err != nil || !ok {
+			Fatal("independent decoder on the long-line text (%s): %v", c.ext, err)
+		}
+		d := filepath.Join(r.Dir, "longline")
+		os.MkdirAll(d, 0o755)
+		p := filepath.Join(d, "a."+c.ext)
+		os.WriteFile(p, []byte(c.text), 0o644)
+		b, _ := bkl.New()
+		got := []any{}
+		merr := b.MergeFile(p)
+		if merr == nil {
+			for _, doc := range b.Documents() {
+				got = append(got, tv.FromGo(doc.Data))
+			}
+		}
+		n++
+		if merr != nil || !docsEqual(got, want) {
+			r.Violate(fmt.Sprintf("a %s layer with a line longer than 64 KiB is not read as the independent decoder reads it (error: %v; %d documents instead of %d)", c.ext, merr, len(got), len(want)),
+				map[string]any{"kind": "longline", "ext": c.ext, "head": trunc(c.text, 60), "line_bytes": 70000})
+		}
+	}
+	return n
 }
